@@ -174,9 +174,47 @@ static int merge_function(const char *f, char **tok, int n)
   return 0;
 }
 
+/* the getters that return arrays through out-parameters: econf_getGroups, econf_getKeys.
+ *   getGroups <g-object | -> <mode>            mode: n = all arguments given, g = groups is NULL
+ *   getKeys   <e-object | -> <group | -> <mode>  mode: n = all arguments given, l = length is NULL
+ * The cells for the results are heap blocks of exactly their size; before the call the length holds 77 and the array pointer
+ * a sentinel.  Output: E<code> <length> followed by g<names> (the returned array, its strings; NOT-TERMINATED when the word after
+ * the last one is not NULL), "null" for a NULL array after success, or same / changed for the array pointer after a failure. */
+static int getter_function(const char *f, char **tok, int n)
+{
+  int isG = !strcmp(f, "getGroups"), isK = !strcmp(f, "getKeys");
+  if (!isG && !isK) return 0;
+  econf_file kf; int have = tok[1][0] != '-';
+  if (have) build_kf(&kf, tok[1]);
+  const char *mode = isG ? (n > 2 ? tok[2] : "n") : (n > 3 ? tok[3] : "n");
+  char *grp = isK && n > 2 ? argstr(tok[2]) : NULL;
+  size_t *length = malloc(sizeof *length); *length = 77;
+  char ***arr = malloc(sizeof *arr); char **sentinel = (char **)length; *arr = sentinel;
+  econf_err e = isG ? econf_getGroups(have ? &kf : NULL, length, mode[0] == 'g' ? NULL : arr)
+                    : econf_getKeys(have ? &kf : NULL, grp, mode[0] == 'l' ? NULL : length, arr);
+  printf("%s E%d %zu", f, (int)e, *length);
+  if (e) printf(" %s", *arr == sentinel ? "same" : "changed");
+  else if (*arr == NULL) printf(" null");
+  else if (*arr == sentinel) printf(" same");
+  else {
+    /* with length == NULL the number of strings is found by the terminator */
+    size_t cnt = 0;
+    if (mode[0] == 'l') { while ((*arr)[cnt]) cnt++; } else cnt = *length;
+    printf(" g");
+    for (size_t i = 0; i < cnt; i++) { if (i) putchar(','); put_opt((*arr)[i]); free((*arr)[i]); }
+    if ((*arr)[cnt] != NULL) printf(" NOT-TERMINATED");
+    free(*arr);
+  }
+  printf("\n");
+  free(grp); free(length); free(arr);
+  if (have) free_kf(&kf);
+  return 1;
+}
+
 static int kf_function(const char *f, char **tok, int n)
 {
   if (merge_function(f, tok, n)) return 1;
+  if (getter_function(f, tok, n)) return 1;
   if (strcmp(f, "has_group") && strcmp(f, "first_entry") && strcmp(f, "first_definition") && strcmp(f, "find_key") &&
       strcmp(f, "getFromGroupList"))
     return 0;
